@@ -10,6 +10,7 @@ import Compress.Proofs.FlateApi
 import Compress.Proofs.BzReaderApi
 import Compress.Proofs.FlateApiRefine
 import Compress.Proofs.MetaRApiExact
+import Compress.Proofs.BzReaderApiIn
 
 namespace Compress.Props.C11
 open Compress Compress.Prefix Compress.Proofs.PrefixTables Compress.Proofs.BitIOExact
@@ -130,6 +131,19 @@ theorem C11_flate_api_input_offset (r0 : Reader) (src : Src) (sched : List Nat)
   obtain ⟨r', h1, _, _, _, h5⟩ := Compress.Proofs.FlateApi.reset_drive_spec r0 src sched hs
   rw [hv] at h1
   exact ⟨r', _, h1, h5 n hv⟩
+
+open Compress.Bzip2.ReaderApi in
+/-- **bzip2.Reader at the API: at `io.EOF` InputOffset is the length of the input.** For a source
+    that does not fail, from any earlier state Reset onto it, after ANY sequence of Reads (any buffer
+    lengths, zero included) and Closes: a Read that returns io.EOF leaves InputOffset equal to the
+    total number of input bytes (the reader continues into following streams, so io.EOF means
+    everything was consumed).  `C11_bzip2_counters` lifted to `Bzip2.ReaderApi`. -/
+theorem C11_bzip2_api_input_offset_at_eof (r0 : Reader) (src : Src) (hf : src.fault = none) (ops : List Op)
+    (hn : ∀ op ∈ ops, op.noReset = true) (n : Nat)
+    (h : ((Reader.run (r0.reset src) ops).1.read n).2.2 = some .eof) :
+    ((Reader.run (r0.reset src) ops).1.read n).1.inputOffset = src.data.length :=
+  Compress.Proofs.BzReaderApiIn.inputOffset_at_eof r0 src hf ops hn n h
+
 /-! ### meta.Reader (API-level model `Meta/ReaderApi.lean`) -/
 
 section metaReader
